@@ -149,6 +149,29 @@ def env_atoms(desc, host_atoms):
             info.append({"kind": "wat", "input": "HOH", "position": None,
                          "chain": "W", "res_seq": wnum})
             wnum += 1
+        elif kind == "idealwater":
+            # water oxygen on a tetrahedral slot of the host's polar atom
+            _k, tname, phi, slot, d = dev
+            t = _find(host_atoms, ti, tname)
+            if t is None:
+                return None
+            tmpl = T.expected_topology(desc["x"], desc["pos"])
+            par = next(b for b in tmpl.atoms[tname].bonds
+                       if not b.startswith("H"))
+            gpar = next(b for b in tmpl.atoms[par].bonds
+                        if not b.startswith("H") and b != tname)
+            xyz = build.nerf(_find(host_atoms, ti, gpar)["xyz"],
+                             _find(host_atoms, ti, par)["xyz"],
+                             t["xyz"], d, 109.5, phi + 120.0 * slot)
+            for a in list(host_atoms) + extra:
+                if a is t or a["name"].startswith("H"):
+                    continue
+                if build.dist(a["xyz"], xyz) < 2.4:
+                    return None
+            extra.append(build.water(xyz, wnum))
+            info.append({"kind": "wat", "input": "HOH", "position": None,
+                         "chain": "W", "res_seq": wnum})
+            wnum += 1
         elif kind in ("partner", "ideal"):
             if kind == "ideal":
                 # partner atom on a tetrahedral slot of the host's polar atom:
@@ -462,12 +485,19 @@ def tetra_partner_cases(ff, hosts=("SER", "THR", "TYR"),
         for pos in positions:
             for P1, P2 in pairs:
                 for phi in phis:
-                    out.append({
-                        "x": x, "pos": pos, "ff": ff, "opt": "default",
-                        "env": [["ideal", P1, PARTNER_ATOMS[P1][-1], t, phi,
-                                 0, 2.8],
-                                ["ideal", P2, PARTNER_ATOMS[P2][-1], t, phi,
-                                 1, 2.8]]})
+                    env = [["ideal", P1, PARTNER_ATOMS[P1][-1], t, phi,
+                            0, 2.8],
+                           ["ideal", P2, PARTNER_ATOMS[P2][-1], t, phi,
+                            1, 2.8]]
+                    out.append({"x": x, "pos": pos, "ff": ff,
+                                "opt": "default", "env": env})
+                    if (P1, P2) == ("LYS", "LYS"):
+                        # a water on the third slot: where the hydroxyl
+                        # hydrogen is built last, with queries still to come
+                        out.append({"x": x, "pos": pos, "ff": ff,
+                                    "opt": "default",
+                                    "env": env + [["idealwater", t, phi, 2,
+                                                   2.8]]})
     return out
 
 
